@@ -295,7 +295,7 @@ def avx2_jobs(seed=0):
                 for lane in range(4):
                     quick = ell in quick_ells and lane == (seed + ell + row) % 4 and row == (seed + ell) % rows
                     J.append(Job(name="q120.avx2_eq_ref.%s.ell%d.row%d.lane%d" % (names[prod], ell, row, lane), props=["C07", "C10", "C04"], shape="S4",
-                                 sources=AVX + ["q120/q120_arithmetic_ref.c"], harness="q120_avx2.c", entry="h_avx2_eq", no_dfcc=True, avx=True,
+                                 sources=AVX + ["q120/q120_arithmetic_ref.c"], harness="q120_avx2.c", entry="h_avx2_eq", no_dfcc=True, avx=True, guard=False,
                                  defines={"PROD": prod, "LANE": lane, "ROW": row, "HH": h, "ELL": ell}, replay=({"driver": "q120_prod", "fn": names[prod] + "_avx2"} if prod in (0, 1) else None),
                                  cbmc_flags=["--no-signed-overflow-check", "--unwind", str(max(10, 16 * ell + 2)), "--unwinding-assertions"], functions=[spec(prod, lane, row)[0]],
                                  timeout=3000, solver="race", tier="quick" if quick else ("thorough" if lane == (seed + ell + row) % 4 else "manual"),
